@@ -261,8 +261,8 @@ class MacroGen:
 
 # the XS(x) -> S(x) -> #x form shows the white space c2mir keeps between the tokens of an expanded argument; it is
 # switched on with fixes/C09-8.patch in /repo (before it, `a ## <empty> b` lost its white space)
-STRINGIFY_EXPANDED = False
-MODEL_QUIRKS = '001'      # the quirk word of ocaml/driver_c09fn.ml that describes /repo as it is
+STRINGIFY_EXPANDED = True
+MODEL_QUIRKS = '000'      # the quirk word of ocaml/driver_c09fn.ml that describes /repo as it is
 
 
 def gen_macro_case(rng, idx):
